@@ -4,10 +4,3 @@ NOTES = ("Every check: (1) rebuilds the .vo files of its property and re-runs Pr
          ">= 100 are model/implementation divergences reported as 'no-failing-input-found' when no clause violation was found. "
          "Known findings: /verif/known_findings.jsonl. Design and trusted base: /verif/DESIGN.md.")
 NOT_CLAIMED = {}
-CLAIMS = {}
-CLAIMS["C18"] = {
-    "text": "Machine-checked proof (Coq) over an executable model of xorshift128+/Intn/entropy/hook that for EVERY infohash, peer ID and valid configuration the delta is 0 or within 1..max_increase_delta, only interval/min interval change, delta depends only on the ids, and selection is a threshold on a 24-bit residue; the pre-fix Intn is refuted by a kernel-checked witness. The model is tied to the Go code on every run by differential execution of NewHook/HandleAnnounce on crafted (state sums 0, 2^63, 2^64-1, second draw forced to 2^63) and random inputs.",
-    "design_ref": "DESIGN.md section 8, C18",
-    "note": "Trusted: Coq kernel + vm_compute; Glue/G18.v; Go driver; float32 facts (integers < 2^24 and their quotient by 2^24 are exact); Go int = 64 bit; visible no-int64-overflow hypothesis on interval + max_delta s. 'The configured fraction of responses' is proved only in its deterministic threshold form; uniformity of real infohashes is not a theorem.",
-    "technique": "Coq proof over executable Gallina model + differential correspondence check (vm_compute)",
-}
